@@ -99,8 +99,9 @@ type PathElem struct {
 }
 
 type VPtr struct {
-	Obj  *Object // nil = nil pointer
-	Path []PathElem
+	Obj   *Object // nil = nil pointer
+	Path  []PathElem
+	Valid *Term // non-nil: the pointer is nil unless Valid holds (result of a fallible constructor)
 }
 
 // VSlice: heap-backed (Obj != nil, heap[Obj] is *Seq) or pure (Pure != nil) or nil slice (both nil, Len 0).
@@ -110,6 +111,7 @@ type VSlice struct {
 	Off  *Term
 	Len  *Term
 	Cap  *Term
+	Home *VPtr // for a pure slice loaded from memory: where it lives (element addresses extend this path)
 }
 
 type VIface struct {
@@ -144,6 +146,9 @@ type MapVal struct {
 func isNilValue(v Value) (bool, bool) {
 	switch x := v.(type) {
 	case VPtr:
+		if x.Obj != nil && x.Valid != nil {
+			return false, false
+		}
 		return x.Obj == nil, true
 	case VIface:
 		if x.NilSym != nil {
@@ -252,6 +257,15 @@ func mergeValues(c *Term, a, b Value) Value {
 		}
 		if x.Obj == y.Obj && x.Pure == y.Pure && x.Off == y.Off && x.Len == y.Len {
 			return x
+		}
+		// one side nil: the elements of the other side, the length selected by the condition
+		xNil, yNil := x.Obj == nil && x.Pure == nil, y.Obj == nil && y.Pure == nil
+		// (the backing store is kept, so writes through the merged slice still reach it)
+		if yNil && !xNil {
+			return VSlice{Obj: x.Obj, Pure: x.Pure, Off: x.Off, Len: Ite(c, x.Len, Int64C(0)), Cap: Ite(c, x.Cap, Int64C(0))}
+		}
+		if xNil && !yNil {
+			return VSlice{Obj: y.Obj, Pure: y.Pure, Off: y.Off, Len: Ite(c, Int64C(0), y.Len), Cap: Ite(c, Int64C(0), y.Cap)}
 		}
 		// merge as pure slices (reads only)
 		xs, ys := x, y
@@ -368,6 +382,11 @@ func substValue(v Value, m map[*Term]*Term) Value {
 		return VStr{Subst(x.T, m)}
 	case VBigRef:
 		return VBigRef{Subst(x.T, m)}
+	case VPtr:
+		if x.Valid != nil {
+			x.Valid = Subst(x.Valid, m)
+		}
+		return x
 	case VStruct:
 		f := make([]Value, len(x.F))
 		for i := range f {
